@@ -26,7 +26,7 @@ for i in range(1, 21):
                        engine='symx', level_claimed=dict(category=m.LEVEL, text=M['text'], design_ref=M.get('design_ref', 'DESIGN.md section 4, ' + pid)),
                        level_note=M['note'], technique=M.get('technique', 'symbolic execution of the real Python functions (own engine, fork-by-re-execution), z3 decides every branch and assertion; counterexamples replayed natively')))
 man = dict(version=1,
-           setup_cmd='python3-vt -m compileall -q symx harness >/dev/null 2>&1; python3-vt -c "import z3; print(z3.get_version_string())"',
+           setup_cmd='python3-vt -m compileall -q symx harness >/dev/null 2>&1; python3-vt -c "import z3; print(z3.get_version_string())" && { PYTHONHASHSEED=0 python3-vt tools/selftest_instr.py > selftest.log 2>&1 || { cat selftest.log; exit 1; }; tail -1 selftest.log; }',
            hooks=dict(guard='MESON_VERIF', enable='no source hooks are needed: the checks instrument the modules of /repo at import time (AST transformation in memory), nothing in /repo is changed',
                       baseline_off_cmd='cd /repo && /venv/bin/python -m pytest -ra -q -p no:cacheprovider --timeout=900 --continue-on-collection-errors',
                       source_commits=[], add_only=True),
